@@ -11,6 +11,7 @@ def run(rep, tier, seed):
     memo = [s for s in k_cache.specs('C20') if s.name == 'memo.own_lines']
     verify_all(rep, k_options.specs('C20') + k_modifying.specs('C20') + memo)
     k_options.footprint_structural(rep, 'C20')
+    k_options.validators_finite(rep, 'C20')
     k_bistr.publication_structural(rep, 'C20')
     rep.bounded(native.run('b_options', 'main', {'tier': tier, 'seed': seed}))
     rep.remainder = ('"obtain exactly the results they would obtain alone" over thread SCHEDULES: the family has '
